@@ -74,9 +74,15 @@ int pthread_join(pthread_t t, void **ret)
 	os_join_hook();
 	return 0;
 }
+#ifdef OS_SIGMASK_HOOK
+static void os_sigmask_hook(int how, const sigset_t *set);
+#else
+#define os_sigmask_hook(h, s) ((void) 0)
+#endif
 int pthread_sigmask(int how, const sigset_t *set, sigset_t *old)
 {
 	G_os_sigmask_calls++;
+	os_sigmask_hook(how, set);
 	if (old) *(unsigned long *) old = G_os_sig_blocked;
 	if (set) {
 		if (how == SIG_BLOCK) G_os_sig_blocked |= *(const unsigned long *) set;
@@ -87,7 +93,12 @@ int pthread_sigmask(int how, const sigset_t *set, sigset_t *old)
 }
 int sigfillset(sigset_t *s) { *(unsigned long *) s = ~0UL; return 0; }
 int sigemptyset(sigset_t *s) { *(unsigned long *) s = 0; return 0; }
-int poll(struct pollfd *f, nfds_t n, int t) { (void) f; (void) n; (void) t; G_os_poll_calls++; return 0; }
+#ifdef OS_POLL_HOOK
+static int os_poll_hook(void);
+#else
+#define os_poll_hook() 0
+#endif
+int poll(struct pollfd *f, nfds_t n, int t) { (void) f; (void) n; (void) t; G_os_poll_calls++; return os_poll_hook(); }
 long syscall(long nr, ...)
 {
 	va_list ap;
@@ -106,4 +117,28 @@ long syscall(long nr, ...)
 	G_os_membarrier++;
 	return 0;
 }
+
+/* ---- abort (urcu_die), condition variables ------------------------------------------------------- */
+#include <stdlib.h>
+static unsigned long G_os_die_expected;		/* harness: reaching urcu_die()/abort() is the specified outcome */
+static unsigned long G_os_cond_waits, G_os_cond_broadcasts;
+void abort(void)
+{
+	VERIF_ASSERT(G_os_die_expected, "abort()/urcu_die() reached although the situation is not a fatal one");
+	__CPROVER_assume(0); /*A:os-contract*/
+}
+#ifdef OS_COND_HOOK
+static void os_cond_wait_hook(void);
+#else
+#define os_cond_wait_hook() ((void) 0)
+#endif
+int pthread_cond_wait(pthread_cond_t *c, pthread_mutex_t *m)
+{
+	(void) c;
+	VERIF_ASSERT(OS_HELD(m) == 1, "pthread_cond_wait: mutex held");
+	G_os_cond_waits++;
+	os_cond_wait_hook();
+	return 0;
+}
+int pthread_cond_broadcast(pthread_cond_t *c) { (void) c; G_os_cond_broadcasts++; return 0; }
 #endif
